@@ -25,6 +25,10 @@ def ndarray_get_state(obj: Any, save_context: SaveContext) -> dict[str, Any]:
         # allow_pickle=False, therefore we convert them to a list and
         # recursively call get_state on it.
         if obj.dtype == object:
+            if obj.ndim == 0:
+                # tolist() of a 0-d array is the cell itself, not a list of
+                # cells: the layout below cannot represent it
+                raise UnsupportedTypeException(obj)
             obj_serialized = get_state(obj.tolist(), save_context)
             res["content"] = obj_serialized["content"]
             res["type"] = "json"
